@@ -3,6 +3,11 @@
 // request and reports whether the responder answered RequestRejected on the wire.
 //
 //	wired <selector prefix form>   -> resp=RequestRejected | resp=served | not-wf
+//	wiredp <selector prefix form>  -> same, against a responder that has, besides the default validator, a
+//	                                  second incoming-request hook calling PauseResponse() only (admission
+//	                                  control); once that hook has run the harness calls UnpauseResponse for
+//	                                  the request.  The default validation must still reject an unbounded /
+//	                                  too-deep selector: RequestRejected on the wire, no block ever loaded.
 package selvale2e
 
 import (
@@ -13,6 +18,7 @@ import (
 	"math/rand"
 	"os"
 	"sync"
+	"sync/atomic"
 	"time"
 
 	"github.com/ipld/go-ipld-prime/datamodel"
@@ -48,9 +54,14 @@ type pair struct {
 	mu        sync.Mutex
 	statuses  []graphsync.ResponseStatusCode
 	cancel    context.CancelFunc
+	// pause-hook configuration only
+	respGS graphsync.GraphExchange
+	hooked chan graphsync.RequestID // one entry per run of the pausing hook
+	loads  atomic.Int64             // blocks read from the responder's store
+	sent   atomic.Int64             // outgoing-block hook calls on the responder
 }
 
-func setup() (*pair, error) {
+func setup(pauseHook bool) (*pair, error) {
 	// the check merges stderr into the compared output: keep the libraries quiet
 	logging.SetAllLoggers(logging.LevelFatal)
 	ctx, cancel := context.WithCancel(context.Background())
@@ -81,6 +92,12 @@ func setup() (*pair, error) {
 	st2 := &memstore.Store{}
 	ls2.SetReadStorage(st2)
 	ls2.SetWriteStorage(st2)
+	p := &pair{cancel: cancel, hooked: make(chan graphsync.RequestID, 16)}
+	inner := ls2.StorageReadOpener
+	ls2.StorageReadOpener = func(lc linking.LinkContext, l datamodel.Link) (io.Reader, error) {
+		p.loads.Add(1)
+		return inner(lc, l)
+	}
 	// a small root block on the responder
 	rootNode := fluent.MustBuildMap(basicnode.Prototype.Map, 2, func(na fluent.MapAssembler) {
 		na.AssembleEntry("x").AssignString("y")
@@ -95,10 +112,23 @@ func setup() (*pair, error) {
 		cancel()
 		return nil, err
 	}
-	p := &pair{responder: h2.ID(), root: root, cancel: cancel}
+	p.responder, p.root = h2.ID(), root
 	// default options on both sides: this is what the property is about
 	p.requestor = gsimpl.New(ctx, gsnet.NewFromLibp2pHost(h1), ls1)
-	_ = gsimpl.New(ctx, gsnet.NewFromLibp2pHost(h2), ls2)
+	p.respGS = gsimpl.New(ctx, gsnet.NewFromLibp2pHost(h2), ls2)
+	if pauseHook {
+		// a second hook next to the default validator: it only asks for the response to start paused
+		p.respGS.RegisterIncomingRequestHook(func(_ peer.ID, rd graphsync.RequestData, ha graphsync.IncomingRequestHookActions) {
+			ha.PauseResponse()
+			select {
+			case p.hooked <- rd.ID():
+			default:
+			}
+		})
+		p.respGS.RegisterOutgoingBlockHook(func(peer.ID, graphsync.RequestData, graphsync.BlockData, graphsync.OutgoingBlockHookActions) {
+			p.sent.Add(1)
+		})
+	}
 	p.requestor.RegisterIncomingResponseHook(func(_ peer.ID, rd graphsync.ResponseData, _ graphsync.IncomingResponseHookActions) {
 		p.mu.Lock()
 		p.statuses = append(p.statuses, rd.Status())
@@ -108,13 +138,23 @@ func setup() (*pair, error) {
 }
 
 // ask sends one request and returns the statuses seen on the wire for it
-func (p *pair) ask(sel datamodel.Node) ([]graphsync.ResponseStatusCode, bool) {
+func (p *pair) ask(sel datamodel.Node, unpause func(graphsync.RequestID)) ([]graphsync.ResponseStatusCode, bool) {
 	p.mu.Lock()
 	p.statuses = nil
 	p.mu.Unlock()
 	ctx, cancel := context.WithTimeout(context.Background(), 10*time.Second)
 	defer cancel()
 	progress, errs := p.requestor.Request(ctx, p.responder, p.root, sel)
+	if unpause != nil {
+		// the pausing hook runs inside the response manager's event loop (processRequests), which also
+		// parks or rejects the request before it takes the next event; UnpauseResponse is such an event,
+		// so once the hook has run the call below is ordered after that decision — no timing involved
+		select {
+		case id := <-p.hooked:
+			unpause(id)
+		case <-ctx.Done():
+		}
+	}
 	for progress != nil || errs != nil {
 		select {
 		case _, ok := <-progress:
@@ -136,20 +176,22 @@ func (p *pair) ask(sel datamodel.Node) ([]graphsync.ResponseStatusCode, bool) {
 }
 
 func Run(cases []reg.Case, out *reg.Out) {
-	p, err := setup()
+	p, err := setup(false)
 	if err != nil {
 		fmt.Fprintln(os.Stderr, "selvale2e setup:", err)
 		os.Exit(3)
 	}
 	defer p.cancel()
+	var pp *pair // responder with the pause-only hook, built on first use
 	ssb := builder.NewSelectorSpecBuilder(basicnode.Prototype.Any)
 	for _, c := range cases {
 		out.BeginCase(c)
 		for _, op := range c.Ops {
-			if len(op) < 2 || op[0] != "wired" {
+			if len(op) < 2 || (op[0] != "wired" && op[0] != "wiredp") {
 				out.Line("bad-op")
 				continue
 			}
+			hookPaused := op[0] == "wiredp"
 			s, rest, err := selval.ParseSel(op[1:])
 			if err != nil || len(rest) != 0 {
 				out.Line("bad-op")
@@ -165,7 +207,35 @@ func Run(cases []reg.Case, out *reg.Out) {
 				out.Cov("e2e:not-wf")
 				continue
 			}
-			statuses, timedOut := p.ask(n)
+			var statuses []graphsync.ResponseStatusCode
+			var timedOut bool
+			var loads, sent int64
+			if hookPaused {
+				if pp == nil {
+					if pp, err = setup(true); err != nil {
+						fmt.Fprintln(os.Stderr, "selvale2e setup:", err)
+						os.Exit(3)
+					}
+					defer pp.cancel()
+				}
+				for len(pp.hooked) > 0 {
+					<-pp.hooked
+				}
+				l0, s0 := pp.loads.Load(), pp.sent.Load()
+				statuses, timedOut = pp.ask(n, func(id graphsync.RequestID) {
+					uctx, ucancel := context.WithTimeout(context.Background(), 10*time.Second)
+					defer ucancel()
+					if uerr := pp.respGS.Unpause(uctx, id); uerr == nil {
+						out.Cov("e2e:hook-paused-unpaused")
+					} else {
+						out.Cov("e2e:hook-paused-unpause-refused")
+					}
+				})
+				// the request has ended at the requestor: whatever the responder loaded for it, it loaded before
+				loads, sent = pp.loads.Load()-l0, pp.sent.Load()-s0
+			} else {
+				statuses, timedOut = p.ask(n, nil)
+			}
 			rejected := false
 			for _, st := range statuses {
 				if st == graphsync.RequestRejected {
@@ -192,7 +262,16 @@ func Run(cases []reg.Case, out *reg.Out) {
 			if !timedOut && bounded && rejected {
 				out.Fail("e2e-bounded-rejected", "default responder answered RequestRejected for `%s`, whose recursions are all limited to depth <= 100", s.String())
 			}
-			if !timedOut && !bounded && !rejected {
+			if hookPaused {
+				out.Cov("e2e:hook-paused")
+				// whatever other hooks do (here: one that only pauses), default validation rejects the selector
+				if !timedOut && !bounded && !rejected {
+					out.Fail("e2e-hook-paused-unbounded-served", "responder with the default validator and a hook that only calls PauseResponse did not reject `%s` (statuses %v, unpaused afterwards), which contains an unbounded or deeper-than-100 recursion", s.String(), statuses)
+				}
+				if !bounded && (loads > 0 || sent > 0) {
+					out.Fail("e2e-hook-paused-unbounded-executed", "responder with the default validator and a hook that only calls PauseResponse executed `%s` after UnpauseResponse (%d blocks loaded, %d sent; statuses %v), although it contains an unbounded or deeper-than-100 recursion", s.String(), loads, sent, statuses)
+				}
+			} else if !timedOut && !bounded && !rejected {
 				out.Fail("e2e-unbounded-served", "default responder did not reject `%s` (statuses %v), which contains an unbounded or deeper-than-100 recursion", s.String(), statuses)
 			}
 		}
@@ -204,7 +283,12 @@ func Gen(seed int64, n int, tier string, w *bufio.Writer) {
 	for i := 0; i < n; i++ {
 		fmt.Fprintf(w, "case e%d\n", i)
 		for j := 0; j < 3; j++ {
-			fmt.Fprintf(w, "wired %s\n", selval.GenWellFormed(r, 1+r.Intn(5)).String())
+			// every third case talks only to the responder with the pause-only hook, the others now and then
+			op := "wired"
+			if i%3 == 2 || r.Intn(5) == 0 {
+				op = "wiredp"
+			}
+			fmt.Fprintf(w, "%s %s\n", op, selval.GenWellFormed(r, 1+r.Intn(5)).String())
 		}
 	}
 }
